@@ -327,6 +327,38 @@ def run(ctx):
             rr = mode_record(pf, set(), conc, None, sg)
             rr['sizes'] = 'many'
             mrecs.append(rr)
+        # histories: a call that fails part-way through a file, then further calls on the SAME long-lived executor / thread.
+        # every later successful call must still return each file's own signature
+        import gzip as _gz
+        trunc = os.path.join(tmp, 'truncated-multi.fa.gz')
+        rngt = __import__('random').Random(ctx.seed + 5)
+        blob = _gz.compress(''.join(f'>c{i}\nAT{"".join(rngt.choice("ACGT") for _ in range(400))}\n' for i in range(60)).encode())
+        with open(trunc, 'wb') as f:
+            f.write(blob[:len(blob) * 2 // 3])            # decompresses for a while, then EOFError
+        hist_execs = [('sequential', None), ('threads-1', ThreadPoolExecutor(1)), ('threads-2', ThreadPoolExecutor(2)), ('processes-1', ProcessPoolExecutor(1))]
+        try:
+            for label, ex in hist_execs:
+                for fail_pos in (len(skew), 0, 2):
+                    bad_list = list(skew[:fail_pos]) + [trunc] + list(skew[fail_pos:])
+                    steps = [('fail', bad_list), ('ok', list(skew)), ('ok', list(skew[::-1]))]
+                    for kind, paths in steps:
+                        want = single_skew if paths == list(skew) else single_skew[::-1]
+                        rr = dict(n=len(paths), failing=[fail_pos + 1] if kind == 'fail' else [], outcome='', sigs=[], mode=f'history:{label}', workers=0, step=kind)
+                        try:
+                            if ex is None:
+                                res = calc_file_signatures(KS, seqfiles(paths), concurrency=None)
+                            else:
+                                res = calc_file_signatures(KS, seqfiles(paths), executor=ex)
+                            rr['outcome'] = 'returned'
+                            rr['sigs'] = [which(s_, want) for s_ in res]
+                        except BaseException as e:
+                            rr['outcome'] = 'raised'
+                            rr['err'] = type(e).__name__
+                        mrecs.append(rr)
+        finally:
+            for _, ex in hist_execs:
+                if ex is not None:
+                    ex.shutdown(wait=True)
         for r in mrecs:
             exp_out = 'raised' if r['failing'] else 'returned'
             ok = r['outcome'] == exp_out and (exp_out == 'raised' or r['sigs'] == list(range(1, r['n'] + 1)))
@@ -341,7 +373,7 @@ def run(ctx):
         ctx.rule_parts.append(f'[forced-completion-order] every completion permutation of 1..{nmax} files x every failing set of size <= '
                               f'{2 if big else 1} generated by TLC (Gen_CalcFiles) and forced on calc_file_signatures through a controlled '
                               f'executor; [real-pool-trace] ThreadPool/ProcessPool x worker counts x size skew x unreadable file at each '
-                              f'position, events validated by Trace_CalcFiles; [mode-result] sequential / own thread pool / own process pool; '
+                              f'position, events validated by Trace_CalcFiles; [mode-result] sequential / own thread pool / own process pool; histories on one long-lived executor / thread: a call that fails part-way through a truncated multi-record gzip, then successful calls; '
                               f'non-trivial = >= 3 files')
         ctx.exhaustive_all = False
     finally:
